@@ -6,7 +6,7 @@ From Centro Require Import Model.MaskFlow.
 Import ListNotations.
 
 (* library symbols (index: name) *)
-(* 0: all; 1: not; 2: copy; 3: needs_ranking; 4: take; 5: rank_order.translation; 6: gather; 7: _filter.median_filter; 8: scatter; 9: rank_order.ranks; 10: ascontiguousarray; 11: any; 12: has_greater_structure_neighbour; 13: one_pixel_per_component(edt,label,rank_order,maximum_position); 14: or; 15: lt; 16: min; 17: gt; 18: max; 19: index; 20: unpack1; 21: rank_order; 22: unpack0; 23: cropiradius:-iradius,iradius:-iradius; 24: grey_erosion; 25: setsliceiradius:-iradius,iradius:-iradius; 26: grey_dilation; 27: sub; 28: max_axis0; 29: grey_dilation@angle0; 30: grey_erosion@angle0; 31: grey_dilation@angle1; 32: grey_erosion@angle1; 33: grey_dilation@angle2; 34: grey_erosion@angle2; 35: min_axis0; 36: sqrt; 37: add; 38: pow; 39: abs; 40: convolve3x3; 41: mult; 42: shift(-1,+1); 43: shift(+1,+1); 44: eq; 45: label; 46: gte; 47: div; 48: function; 49: lte; 50: shift(+1,-1); 51: logical_or; 52: shift(+1,+0); 53: shift(-1,+0); 54: shift(+0,-1); 55: shift(+0,+1); 56: shift(-1,-1); 57: setslice1:; 58: zeros; 59: fix; 60: sum; 61: arange; 62: convolve; 63: gaussian_filter; 64: kernel; 65: array; 66: count_nonzero; 67: opaque_expression; 68: lstsq; 69: transpose; 70: gt0; 71: sum_of_shifts; 72: astype; 73: len; 74: unique; 75: maximum; 76: convex_hull_transform; 77: floor; 78: minimum; 79: cumsum; 80: indexed_store; 81: shape_of; 82: convex_hull_ijv; 83: column_stack; 84: loop:first_i; 85: ones; 86: slice; 87: loop:first_j; 88: loop:first_levels; 89: unpack2; 90: get_line_pts; 91: crop1:; 92: lexsort; 93: unpack3; 94: hstack; 95: bitor; 96: noteq; 97: crop:-1; 98: bitand; 99: neg; 100: table_lookup; 101: index_set; 102: loop:index_i; 103: prepare_for_index_lookup; 104: loop:index_j; 105: skeletonize_loop; 106: distance_transform_edt *)
+(* 0: all; 1: not; 2: copy; 3: needs_ranking; 4: take; 5: rank_order.translation; 6: gather; 7: _filter.median_filter; 8: scatter; 9: rank_order.ranks; 10: ascontiguousarray; 11: any; 12: has_greater_structure_neighbour; 13: one_pixel_per_component(edt,label,rank_order,maximum_position); 14: or; 15: lt; 16: min; 17: gt; 18: max; 19: index; 20: unpack1; 21: rank_order; 22: unpack0; 23: cropiradius:-iradius,iradius:-iradius; 24: grey_erosion; 25: setsliceiradius:-iradius,iradius:-iradius; 26: grey_dilation; 27: sub; 28: max_axis0; 29: min_axis0; 30: sqrt; 31: add; 32: pow; 33: abs; 34: convolve3x3; 35: mult; 36: shift(-1,+1); 37: shift(+1,+1); 38: eq; 39: label; 40: gte; 41: div; 42: function; 43: lte; 44: shift(+1,-1); 45: logical_or; 46: shift(+1,+0); 47: shift(-1,+0); 48: shift(+0,-1); 49: shift(+0,+1); 50: shift(-1,-1); 51: setslice1:; 52: zeros; 53: fix; 54: sum; 55: arange; 56: convolve; 57: gaussian_filter; 58: kernel; 59: array; 60: count_nonzero; 61: opaque_expression; 62: lstsq; 63: transpose; 64: loop:m; 65: cropymin+y:ymax+y,xmin+x:xmax+x; 66: loop:a; 67: len; 68: unique; 69: astype; 70: maximum; 71: convex_hull_transform; 72: floor; 73: minimum; 74: cumsum; 75: indexed_store; 76: shape_of; 77: convex_hull_ijv; 78: column_stack; 79: loop:first_i; 80: ones; 81: slice; 82: loop:first_j; 83: loop:first_levels; 84: unpack2; 85: get_line_pts; 86: crop1:; 87: lexsort; 88: unpack3; 89: hstack; 90: bitor; 91: noteq; 92: crop:-1; 93: bitand; 94: neg; 95: table_lookup; 96: index_set; 97: loop:index_i; 98: prepare_for_index_lookup; 99: loop:index_j; 100: skeletonize_loop; 101: distance_transform_edt *)
 (* constants (index: name) *)
 (* 0: zeros_uint8; 1: zeros(..); 2: ones(..); 3: 1; 4: cmp; 5: $clip; 6: unpacked; 7: expr; 8: True; 9: is; 10: zeros; 11: permutation(..) *)
 Definition sym_all : nat := 0.
@@ -38,79 +38,74 @@ Definition sym_setsliceiradius_iradius_iradius_iradius : nat := 25.
 Definition sym_grey_dilation : nat := 26.
 Definition sym_sub : nat := 27.
 Definition sym_max_axis0 : nat := 28.
-Definition sym_grey_dilation_angle0 : nat := 29.
-Definition sym_grey_erosion_angle0 : nat := 30.
-Definition sym_grey_dilation_angle1 : nat := 31.
-Definition sym_grey_erosion_angle1 : nat := 32.
-Definition sym_grey_dilation_angle2 : nat := 33.
-Definition sym_grey_erosion_angle2 : nat := 34.
-Definition sym_min_axis0 : nat := 35.
-Definition sym_sqrt : nat := 36.
-Definition sym_add : nat := 37.
-Definition sym_pow : nat := 38.
-Definition sym_abs : nat := 39.
-Definition sym_convolve3x3 : nat := 40.
-Definition sym_mult : nat := 41.
-Definition sym_shift_1_1 : nat := 42.
-Definition sym_eq : nat := 44.
-Definition sym_label : nat := 45.
-Definition sym_gte : nat := 46.
-Definition sym_div : nat := 47.
-Definition sym_function : nat := 48.
-Definition sym_lte : nat := 49.
-Definition sym_logical_or : nat := 51.
-Definition sym_shift_1_0 : nat := 52.
-Definition sym_shift_0_1 : nat := 54.
-Definition sym_setslice1 : nat := 57.
-Definition sym_zeros : nat := 58.
-Definition sym_fix : nat := 59.
-Definition sym_sum : nat := 60.
-Definition sym_arange : nat := 61.
-Definition sym_convolve : nat := 62.
-Definition sym_gaussian_filter : nat := 63.
-Definition sym_kernel : nat := 64.
-Definition sym_array : nat := 65.
-Definition sym_count_nonzero : nat := 66.
-Definition sym_opaque_expression : nat := 67.
-Definition sym_lstsq : nat := 68.
-Definition sym_transpose : nat := 69.
-Definition sym_gt0 : nat := 70.
-Definition sym_sum_of_shifts : nat := 71.
-Definition sym_astype : nat := 72.
-Definition sym_len : nat := 73.
-Definition sym_unique : nat := 74.
-Definition sym_maximum : nat := 75.
-Definition sym_convex_hull_transform : nat := 76.
-Definition sym_floor : nat := 77.
-Definition sym_minimum : nat := 78.
-Definition sym_cumsum : nat := 79.
-Definition sym_indexed_store : nat := 80.
-Definition sym_shape_of : nat := 81.
-Definition sym_convex_hull_ijv : nat := 82.
-Definition sym_column_stack : nat := 83.
-Definition sym_loop_first_i : nat := 84.
-Definition sym_ones : nat := 85.
-Definition sym_slice : nat := 86.
-Definition sym_loop_first_j : nat := 87.
-Definition sym_loop_first_levels : nat := 88.
-Definition sym_unpack2 : nat := 89.
-Definition sym_get_line_pts : nat := 90.
-Definition sym_crop1 : nat := 91.
-Definition sym_lexsort : nat := 92.
-Definition sym_unpack3 : nat := 93.
-Definition sym_hstack : nat := 94.
-Definition sym_bitor : nat := 95.
-Definition sym_noteq : nat := 96.
-Definition sym_crop_1 : nat := 97.
-Definition sym_bitand : nat := 98.
-Definition sym_neg : nat := 99.
-Definition sym_table_lookup : nat := 100.
-Definition sym_index_set : nat := 101.
-Definition sym_loop_index_i : nat := 102.
-Definition sym_prepare_for_index_lookup : nat := 103.
-Definition sym_loop_index_j : nat := 104.
-Definition sym_skeletonize_loop : nat := 105.
-Definition sym_distance_transform_edt : nat := 106.
+Definition sym_min_axis0 : nat := 29.
+Definition sym_sqrt : nat := 30.
+Definition sym_add : nat := 31.
+Definition sym_pow : nat := 32.
+Definition sym_abs : nat := 33.
+Definition sym_convolve3x3 : nat := 34.
+Definition sym_mult : nat := 35.
+Definition sym_shift_1_1 : nat := 36.
+Definition sym_eq : nat := 38.
+Definition sym_label : nat := 39.
+Definition sym_gte : nat := 40.
+Definition sym_div : nat := 41.
+Definition sym_function : nat := 42.
+Definition sym_lte : nat := 43.
+Definition sym_logical_or : nat := 45.
+Definition sym_shift_1_0 : nat := 46.
+Definition sym_shift_0_1 : nat := 48.
+Definition sym_setslice1 : nat := 51.
+Definition sym_zeros : nat := 52.
+Definition sym_fix : nat := 53.
+Definition sym_sum : nat := 54.
+Definition sym_arange : nat := 55.
+Definition sym_convolve : nat := 56.
+Definition sym_gaussian_filter : nat := 57.
+Definition sym_kernel : nat := 58.
+Definition sym_array : nat := 59.
+Definition sym_count_nonzero : nat := 60.
+Definition sym_opaque_expression : nat := 61.
+Definition sym_lstsq : nat := 62.
+Definition sym_transpose : nat := 63.
+Definition sym_loop_m : nat := 64.
+Definition sym_cropymin_y_ymax_y_xmin_x_xmax_x : nat := 65.
+Definition sym_loop_a : nat := 66.
+Definition sym_len : nat := 67.
+Definition sym_unique : nat := 68.
+Definition sym_astype : nat := 69.
+Definition sym_maximum : nat := 70.
+Definition sym_convex_hull_transform : nat := 71.
+Definition sym_floor : nat := 72.
+Definition sym_minimum : nat := 73.
+Definition sym_cumsum : nat := 74.
+Definition sym_indexed_store : nat := 75.
+Definition sym_shape_of : nat := 76.
+Definition sym_convex_hull_ijv : nat := 77.
+Definition sym_column_stack : nat := 78.
+Definition sym_loop_first_i : nat := 79.
+Definition sym_ones : nat := 80.
+Definition sym_slice : nat := 81.
+Definition sym_loop_first_j : nat := 82.
+Definition sym_loop_first_levels : nat := 83.
+Definition sym_unpack2 : nat := 84.
+Definition sym_get_line_pts : nat := 85.
+Definition sym_crop1 : nat := 86.
+Definition sym_lexsort : nat := 87.
+Definition sym_unpack3 : nat := 88.
+Definition sym_hstack : nat := 89.
+Definition sym_bitor : nat := 90.
+Definition sym_noteq : nat := 91.
+Definition sym_crop_1 : nat := 92.
+Definition sym_bitand : nat := 93.
+Definition sym_neg : nat := 94.
+Definition sym_table_lookup : nat := 95.
+Definition sym_index_set : nat := 96.
+Definition sym_loop_index_i : nat := 97.
+Definition sym_prepare_for_index_lookup : nat := 98.
+Definition sym_loop_index_j : nat := 99.
+Definition sym_skeletonize_loop : nat := 100.
+Definition sym_distance_transform_edt : nat := 101.
 
 (* median_filter_unmasked_minmax (20 DAG nodes, 65 as a tree):  Select (Pw copy [Img]) (Glob all [Pw not [MaskE]]) (Select (Glob take [Glob rank_order.translation [Glob gather [Select (Img) (MaskE) (FalseC); MaskE]]; Glob _filter.median_filter [Select (Glob scatter [Select (Glob rank_order.ranks [Glob gather [Select (Img) (MaskE) (FalseC); MaskE]]) (Glob needs_ranking [Img]) (Glob gather [Select (Img) (MaskE) (FalseC); MaskE]); MaskE]) (MaskE) (Const<zeros_uint8>); Pw ascontiguousarray [MaskE]]]) (Glob needs_ranking [Img]) (Glob _filter.median_filter [Select (Glob scatter [Select (Glob rank_order.ranks [Glob gather [Select (Img) (MaskE) (FalseC); MaskE]])  ... *)
 Definition prog_median_filter_unmasked_minmax : prog :=
@@ -178,58 +173,53 @@ Definition prog_black_tophat : prog :=
 Example black_tophat_ok : accepts prog_black_tophat = true.
 Proof. vm_compute. reflexivity. Qed.
 
-(* openlines (35 DAG nodes, 189 as a tree):  Pw sub [Pw max_axis0 [Select (Glob cropiradius:-iradius,iradius:-iradius [Glob grey_dilation@angle0 [Glob setsliceiradius:-iradius,iradius:-iradius [Const<zeros(..)>; Select (Select (Glob cropiradius:-iradius,iradius:-iradius [Glob grey_erosion@angle0 [Glob setsliceiradius:-iradius,iradius:-iradius [Const<ones(..)>; Select (Img) (MaskE) (Const<1>)]]]) (MaskE) (Img)) (MaskE) (FalseC)]]]) (MaskE) (Select (Glob cropiradius:-iradius,iradius:-iradius [Glob grey_erosion@angle0 [Glob setsliceiradius:-iradius,iradius:-iradius [Const<ones(..)>; Select (Img) (MaskE) (Const<1>)]]]) (MaskE) (Img)); Select ... *)
+(* openlines (19 DAG nodes, 65 as a tree):  Pw sub [Pw max_axis0 [Select (Glob cropiradius:-iradius,iradius:-iradius [Glob grey_dilation [Glob setsliceiradius:-iradius,iradius:-iradius [Const<zeros(..)>; Select (Select (Glob cropiradius:-iradius,iradius:-iradius [Glob grey_erosion [Glob setsliceiradius:-iradius,iradius:-iradius [Const<ones(..)>; Select (Img) (MaskE) (Const<1>)]]]) (MaskE) (Img)) (MaskE) (FalseC)]]]) (MaskE) (Select (Glob cropiradius:-iradius,iradius:-iradius [Glob grey_erosion [Glob setsliceiradius:-iradius,iradius:-iradius [Const<ones(..)>; Select (Img) (MaskE) (Const<1>)]]]) (MaskE) (Img))]; Pw min_axis0 [Select (Glob ... *)
 Definition prog_openlines : prog :=
-  ([(Glob 25 [(Const 2); (Select Img MaskE (Const 3))]);
-    (Select (Glob 23 [(Glob 30 [(Ref 0)])]) MaskE Img);
-    (Select (Glob 23 [(Glob 29 [(Glob 25 [(Const 1); (Select (Ref 1) MaskE FalseC)])])]) MaskE (Ref 1));
-    (Select (Glob 23 [(Glob 32 [(Ref 0)])]) MaskE Img);
-    (Select (Glob 23 [(Glob 31 [(Glob 25 [(Const 1); (Select (Ref 3) MaskE FalseC)])])]) MaskE (Ref 3));
-    (Select (Glob 23 [(Glob 34 [(Ref 0)])]) MaskE Img);
-    (Select (Glob 23 [(Glob 33 [(Glob 25 [(Const 1); (Select (Ref 5) MaskE FalseC)])])]) MaskE (Ref 5))],
-   (Pw 27 [(Pw 28 [(Ref 2); (Ref 4); (Ref 6)]); (Pw 35 [(Ref 2); (Ref 4); (Ref 6)])])).
+  ([(Select (Glob 23 [(Glob 24 [(Glob 25 [(Const 2); (Select Img MaskE (Const 3))])])]) MaskE Img);
+    (Select (Glob 23 [(Glob 26 [(Glob 25 [(Const 1); (Select (Ref 0) MaskE FalseC)])])]) MaskE (Ref 0))],
+   (Pw 27 [(Pw 28 [(Ref 1)]); (Pw 29 [(Ref 1)])])).
 Example openlines_ok : accepts prog_openlines = true.
 Proof. vm_compute. reflexivity. Qed.
 
 (* sobel (10 DAG nodes, 18 as a tree):  Pw sqrt [Pw add [Pw pow [Select (Pw abs [Loc 1 convolve3x3 (Img)]) (Erode 1 (MaskE)) (FalseC)]; Pw pow [Select (Pw abs [Loc 1 convolve3x3 (Img)]) (Erode 1 (MaskE)) (FalseC)]]] *)
 Definition prog_sobel : prog :=
-  ([(Pw 38 [(Select (Pw 39 [(Loc 1 40 Img)]) (Erode 1 MaskE) FalseC)])],
-   (Pw 36 [(Pw 37 [(Ref 0); (Ref 0)])])).
+  ([(Pw 32 [(Select (Pw 33 [(Loc 1 34 Img)]) (Erode 1 MaskE) FalseC)])],
+   (Pw 30 [(Pw 31 [(Ref 0); (Ref 0)])])).
 Example sobel_ok : accepts prog_sobel = true.
 Proof. vm_compute. reflexivity. Qed.
 
 (* hsobel (7 DAG nodes, 7 as a tree):  Select (Pw abs [Loc 1 convolve3x3 (Img)]) (Erode 1 (MaskE)) (FalseC) *)
 Definition prog_hsobel : prog :=
   ([],
-   (Select (Pw 39 [(Loc 1 40 Img)]) (Erode 1 MaskE) FalseC)).
+   (Select (Pw 33 [(Loc 1 34 Img)]) (Erode 1 MaskE) FalseC)).
 Example hsobel_ok : accepts prog_hsobel = true.
 Proof. vm_compute. reflexivity. Qed.
 
 (* vsobel (7 DAG nodes, 7 as a tree):  Select (Pw abs [Loc 1 convolve3x3 (Img)]) (Erode 1 (MaskE)) (FalseC) *)
 Definition prog_vsobel : prog :=
   ([],
-   (Select (Pw 39 [(Loc 1 40 Img)]) (Erode 1 MaskE) FalseC)).
+   (Select (Pw 33 [(Loc 1 34 Img)]) (Erode 1 MaskE) FalseC)).
 Example vsobel_ok : accepts prog_vsobel = true.
 Proof. vm_compute. reflexivity. Qed.
 
 (* prewitt (10 DAG nodes, 18 as a tree):  Pw sqrt [Pw add [Pw pow [Select (Pw abs [Loc 1 convolve3x3 (Img)]) (Erode 1 (MaskE)) (FalseC)]; Pw pow [Select (Pw abs [Loc 1 convolve3x3 (Img)]) (Erode 1 (MaskE)) (FalseC)]]] *)
 Definition prog_prewitt : prog :=
-  ([(Pw 38 [(Select (Pw 39 [(Loc 1 40 Img)]) (Erode 1 MaskE) FalseC)])],
-   (Pw 36 [(Pw 37 [(Ref 0); (Ref 0)])])).
+  ([(Pw 32 [(Select (Pw 33 [(Loc 1 34 Img)]) (Erode 1 MaskE) FalseC)])],
+   (Pw 30 [(Pw 31 [(Ref 0); (Ref 0)])])).
 Example prewitt_ok : accepts prog_prewitt = true.
 Proof. vm_compute. reflexivity. Qed.
 
 (* hprewitt (7 DAG nodes, 7 as a tree):  Select (Pw abs [Loc 1 convolve3x3 (Img)]) (Erode 1 (MaskE)) (FalseC) *)
 Definition prog_hprewitt : prog :=
   ([],
-   (Select (Pw 39 [(Loc 1 40 Img)]) (Erode 1 MaskE) FalseC)).
+   (Select (Pw 33 [(Loc 1 34 Img)]) (Erode 1 MaskE) FalseC)).
 Example hprewitt_ok : accepts prog_hprewitt = true.
 Proof. vm_compute. reflexivity. Qed.
 
 (* vprewitt (7 DAG nodes, 7 as a tree):  Select (Pw abs [Loc 1 convolve3x3 (Img)]) (Erode 1 (MaskE)) (FalseC) *)
 Definition prog_vprewitt : prog :=
   ([],
-   (Select (Pw 39 [(Loc 1 40 Img)]) (Erode 1 MaskE) FalseC)).
+   (Select (Pw 33 [(Loc 1 34 Img)]) (Erode 1 MaskE) FalseC)).
 Example vprewitt_ok : accepts prog_vprewitt = true.
 Proof. vm_compute. reflexivity. Qed.
 
@@ -237,99 +227,99 @@ Proof. vm_compute. reflexivity. Qed.
 Definition prog_roberts : prog :=
   ([(Erode 1 MaskE);
     (Glob 6 [(Select Img (Ref 0) FalseC); (Ref 0)]);
-    (Pw 27 [(Ref 1); (Glob 6 [(Select (Loc 1 42 Img) (Ref 0) FalseC); (Ref 0)])]);
-    (Pw 27 [(Ref 1); (Glob 6 [(Select (Loc 1 43 Img) (Ref 0) FalseC); (Ref 0)])])],
-   (Select (Glob 8 [(Pw 36 [(Pw 37 [(Pw 41 [(Ref 2); (Ref 2)]); (Pw 41 [(Ref 3); (Ref 3)])])]); (Ref 0)]) (Ref 0) (Select (Const 1) (Ref 0) FalseC))).
+    (Pw 27 [(Ref 1); (Glob 6 [(Select (Loc 1 36 Img) (Ref 0) FalseC); (Ref 0)])]);
+    (Pw 27 [(Ref 1); (Glob 6 [(Select (Loc 1 37 Img) (Ref 0) FalseC); (Ref 0)])])],
+   (Select (Glob 8 [(Pw 30 [(Pw 31 [(Pw 35 [(Ref 2); (Ref 2)]); (Pw 35 [(Ref 3); (Ref 3)])])]); (Ref 0)]) (Ref 0) (Select (Const 1) (Ref 0) FalseC))).
 Example roberts_ok : accepts prog_roberts = true.
 Proof. vm_compute. reflexivity. Qed.
 
 (* canny (165 DAG nodes, 138005 as a tree):  Select (Select (Pw gte [Pw sqrt [Pw add [Pw mult [Loc 1 convolve3x3 (Pw div [Glob function [Select (Img) (MaskE) (Const<zeros(..)>)]; Pw add [Glob function [MaskE]]]); Loc 1 convolve3x3 (Pw div [Glob function [Select (Img) (MaskE) (Const<zeros(..)>)]; Pw add [Glob function [MaskE]]])]; Pw mult [Loc 1 convolve3x3 (Pw div [Glob function [Select (Img) (MaskE) (Const<zeros(..)>)]; Pw add [Glob function [MaskE]]]); Loc 1 convolve3x3 (Pw div [Glob function [Select (Img) (MaskE) (Const<zeros(..)>)]; Pw add [Glob function [MaskE]]])]]]]) (Select (Glob scatter [Select (Pw lte [Pw add [Pw mult [Glob gat ... *)
 Definition prog_canny : prog :=
-  ([(Loc 1 40 (Pw 47 [(Glob 48 [(Select Img MaskE (Const 1))]); (Pw 37 [(Glob 48 [MaskE])])]));
-    (Pw 41 [(Ref 0); (Ref 0)]);
-    (Pw 36 [(Pw 37 [(Ref 1); (Ref 1)])]);
-    (Loc 1 50 (Ref 2));
-    (Pw 39 [(Ref 0)]);
-    (Pw 46 [(Ref 4); (Ref 4)]);
-    (Pw 46 [(Ref 0)]);
+  ([(Loc 1 34 (Pw 41 [(Glob 42 [(Select Img MaskE (Const 1))]); (Pw 31 [(Glob 42 [MaskE])])]));
+    (Pw 35 [(Ref 0); (Ref 0)]);
+    (Pw 30 [(Pw 31 [(Ref 1); (Ref 1)])]);
+    (Loc 1 44 (Ref 2));
+    (Pw 33 [(Ref 0)]);
+    (Pw 40 [(Ref 4); (Ref 4)]);
+    (Pw 40 [(Ref 0)]);
     (Select (Ref 5) (Ref 6) FalseC);
-    (Pw 49 [(Ref 0)]);
+    (Pw 43 [(Ref 0)]);
     (Select (Ref 5) (Ref 8) FalseC);
     (Select (Pw 17 [(Ref 2)]) (Erode 1 MaskE) FalseC);
-    (Select (Pw 51 [(Select (Ref 7) (Ref 8) FalseC); (Select (Ref 9) (Ref 6) FalseC)]) (Ref 10) FalseC);
+    (Select (Pw 45 [(Select (Ref 7) (Ref 8) FalseC); (Select (Ref 9) (Ref 6) FalseC)]) (Ref 10) FalseC);
     (Glob 6 [(Select (Ref 4) (Ref 11) FalseC); (Ref 11)]);
-    (Pw 47 [(Ref 12); (Ref 12)]);
-    (Loc 1 52 (Ref 2));
+    (Pw 41 [(Ref 12); (Ref 12)]);
+    (Loc 1 46 (Ref 2));
     (Pw 27 [(Ref 13)]);
     (Glob 6 [(Select (Ref 2) (Ref 11) FalseC); (Ref 11)]);
-    (Loc 1 42 (Ref 2));
-    (Loc 1 53 (Ref 2));
-    (Pw 49 [(Ref 4); (Ref 4)]);
+    (Loc 1 36 (Ref 2));
+    (Loc 1 47 (Ref 2));
+    (Pw 43 [(Ref 4); (Ref 4)]);
     (Select (Ref 19) (Ref 6) FalseC);
     (Select (Ref 19) (Ref 8) FalseC);
-    (Select (Pw 51 [(Select (Ref 20) (Ref 8) FalseC); (Select (Ref 21) (Ref 6) FalseC)]) (Ref 10) FalseC);
+    (Select (Pw 45 [(Select (Ref 20) (Ref 8) FalseC); (Select (Ref 21) (Ref 6) FalseC)]) (Ref 10) FalseC);
     (Glob 6 [(Select (Ref 4) (Ref 22) FalseC); (Ref 22)]);
-    (Pw 47 [(Ref 23); (Ref 23)]);
-    (Loc 1 54 (Ref 2));
+    (Pw 41 [(Ref 23); (Ref 23)]);
+    (Loc 1 48 (Ref 2));
     (Pw 27 [(Ref 24)]);
     (Glob 6 [(Select (Ref 2) (Ref 22) FalseC); (Ref 22)]);
-    (Loc 1 55 (Ref 2));
-    (Loc 1 56 (Ref 2));
-    (Select (Pw 51 [(Select (Ref 20) (Ref 6) FalseC); (Select (Ref 21) (Ref 8) FalseC)]) (Ref 10) FalseC);
+    (Loc 1 49 (Ref 2));
+    (Loc 1 50 (Ref 2));
+    (Select (Pw 45 [(Select (Ref 20) (Ref 6) FalseC); (Select (Ref 21) (Ref 8) FalseC)]) (Ref 10) FalseC);
     (Glob 6 [(Select (Ref 4) (Ref 30) FalseC); (Ref 30)]);
-    (Pw 47 [(Ref 31); (Ref 31)]);
+    (Pw 41 [(Ref 31); (Ref 31)]);
     (Pw 27 [(Ref 32)]);
     (Glob 6 [(Select (Ref 2) (Ref 30) FalseC); (Ref 30)]);
-    (Loc 1 43 (Ref 2));
-    (Select (Pw 51 [(Select (Ref 7) (Ref 6) FalseC); (Select (Ref 9) (Ref 8) FalseC)]) (Ref 10) FalseC);
+    (Loc 1 37 (Ref 2));
+    (Select (Pw 45 [(Select (Ref 7) (Ref 6) FalseC); (Select (Ref 9) (Ref 8) FalseC)]) (Ref 10) FalseC);
     (Glob 6 [(Select (Ref 4) (Ref 36) FalseC); (Ref 36)]);
-    (Pw 47 [(Ref 37); (Ref 37)]);
+    (Pw 41 [(Ref 37); (Ref 37)]);
     (Pw 27 [(Ref 38)]);
     (Glob 6 [(Select (Ref 2) (Ref 36) FalseC); (Ref 36)]);
-    (Select (Pw 46 [(Ref 2)]) (Select (Glob 8 [(Select (Pw 49 [(Pw 37 [(Pw 41 [(Glob 6 [(Select (Ref 3) (Ref 11) FalseC); (Ref 11)]); (Ref 13)]); (Pw 41 [(Glob 6 [(Select (Ref 14) (Ref 11) FalseC); (Ref 11)]); (Ref 15)])]); (Ref 16)]) (Pw 49 [(Pw 37 [(Pw 41 [(Glob 6 [(Select (Ref 17) (Ref 11) FalseC); (Ref 11)]); (Ref 13)]); (Pw 41 [(Glob 6 [(Select (Ref 18) (Ref 11) FalseC); (Ref 11)]); (Ref 15)])]); (Ref 16)]) FalseC); (Ref 11)]) (Ref 11) (Select (Glob 8 [(Select (Pw 49 [(Pw 37 [(Pw 41 [(Glob 6 [(Select (Ref 3) (Ref 22) FalseC); (Ref 22)]); (Ref 24)]); (Pw 41 [(Glob 6 [(Select (Ref 25) (Ref 22) FalseC); (Ref 22)]); (Ref 26)])]); (Ref 27)]) (Pw 49 [(Pw 37 [(Pw 41 [(Glob 6 [(Select (Ref 17) (Ref 22) FalseC); (Ref 22)]); (Ref 24)]); (Pw 41 [(Glob 6 [(Select (Ref 28) (Ref 22) FalseC); (Ref 22)]); (Ref 26)])]); (Ref 27)]) FalseC); (Ref 22)]) (Ref 22) (Select (Glob 8 [(Select (Pw 49 [(Pw 37 [(Pw 41 [(Glob 6 [(Select (Ref 29) (Ref 30) FalseC); (Ref 30)]); (Ref 32)]); (Pw 41 [(Glob 6 [(Select (Ref 25) (Ref 30) FalseC); (Ref 30)]); (Ref 33)])]); (Ref 34)]) (Pw 49 [(Pw 37 [(Pw 41 [(Glob 6 [(Select (Ref 35) (Ref 30) FalseC); (Ref 30)]); (Ref 32)]); (Pw 41 [(Glob 6 [(Select (Ref 28) (Ref 30) FalseC); (Ref 30)]); (Ref 33)])]); (Ref 34)]) FalseC); (Ref 30)]) (Ref 30) (Select (Glob 8 [(Select (Pw 49 [(Pw 37 [(Pw 41 [(Glob 6 [(Select (Ref 29) (Ref 36) FalseC); (Ref 36)]); (Ref 38)]); (Pw 41 [(Glob 6 [(Select (Ref 18) (Ref 36) FalseC); (Ref 36)]); (Ref 39)])]); (Ref 40)]) (Pw 49 [(Pw 37 [(Pw 41 [(Glob 6 [(Select (Ref 35) (Ref 36) FalseC); (Ref 36)]); (Ref 38)]); (Pw 41 [(Glob 6 [(Select (Ref 14) (Ref 36) FalseC); (Ref 36)]); (Ref 39)])]); (Ref 40)]) FalseC); (Ref 36)]) (Ref 36) (Const 1))))) FalseC);
-    (Glob 45 [(Ref 41)]);
+    (Select (Pw 40 [(Ref 2)]) (Select (Glob 8 [(Select (Pw 43 [(Pw 31 [(Pw 35 [(Glob 6 [(Select (Ref 3) (Ref 11) FalseC); (Ref 11)]); (Ref 13)]); (Pw 35 [(Glob 6 [(Select (Ref 14) (Ref 11) FalseC); (Ref 11)]); (Ref 15)])]); (Ref 16)]) (Pw 43 [(Pw 31 [(Pw 35 [(Glob 6 [(Select (Ref 17) (Ref 11) FalseC); (Ref 11)]); (Ref 13)]); (Pw 35 [(Glob 6 [(Select (Ref 18) (Ref 11) FalseC); (Ref 11)]); (Ref 15)])]); (Ref 16)]) FalseC); (Ref 11)]) (Ref 11) (Select (Glob 8 [(Select (Pw 43 [(Pw 31 [(Pw 35 [(Glob 6 [(Select (Ref 3) (Ref 22) FalseC); (Ref 22)]); (Ref 24)]); (Pw 35 [(Glob 6 [(Select (Ref 25) (Ref 22) FalseC); (Ref 22)]); (Ref 26)])]); (Ref 27)]) (Pw 43 [(Pw 31 [(Pw 35 [(Glob 6 [(Select (Ref 17) (Ref 22) FalseC); (Ref 22)]); (Ref 24)]); (Pw 35 [(Glob 6 [(Select (Ref 28) (Ref 22) FalseC); (Ref 22)]); (Ref 26)])]); (Ref 27)]) FalseC); (Ref 22)]) (Ref 22) (Select (Glob 8 [(Select (Pw 43 [(Pw 31 [(Pw 35 [(Glob 6 [(Select (Ref 29) (Ref 30) FalseC); (Ref 30)]); (Ref 32)]); (Pw 35 [(Glob 6 [(Select (Ref 25) (Ref 30) FalseC); (Ref 30)]); (Ref 33)])]); (Ref 34)]) (Pw 43 [(Pw 31 [(Pw 35 [(Glob 6 [(Select (Ref 35) (Ref 30) FalseC); (Ref 30)]); (Ref 32)]); (Pw 35 [(Glob 6 [(Select (Ref 28) (Ref 30) FalseC); (Ref 30)]); (Ref 33)])]); (Ref 34)]) FalseC); (Ref 30)]) (Ref 30) (Select (Glob 8 [(Select (Pw 43 [(Pw 31 [(Pw 35 [(Glob 6 [(Select (Ref 29) (Ref 36) FalseC); (Ref 36)]); (Ref 38)]); (Pw 35 [(Glob 6 [(Select (Ref 18) (Ref 36) FalseC); (Ref 36)]); (Ref 39)])]); (Ref 40)]) (Pw 43 [(Pw 31 [(Pw 35 [(Glob 6 [(Select (Ref 35) (Ref 36) FalseC); (Ref 36)]); (Ref 38)]); (Pw 35 [(Glob 6 [(Select (Ref 14) (Ref 36) FalseC); (Ref 36)]); (Ref 39)])]); (Ref 40)]) FalseC); (Ref 36)]) (Ref 36) (Const 1))))) FalseC);
+    (Glob 39 [(Ref 41)]);
     (Glob 20 [(Ref 42)]);
     (Glob 22 [(Ref 42)])],
-   (Select (Select (Pw 46 [(Ref 2)]) (Select (Glob 8 [(Select (Pw 49 [(Pw 37 [(Pw 41 [(Glob 6 [(Select (Ref 3) (Ref 11) FalseC); (Ref 11)]); (Ref 13)]); (Pw 41 [(Glob 6 [(Select (Ref 14) (Ref 11) FalseC); (Ref 11)]); (Ref 15)])]); (Ref 16)]) (Pw 49 [(Pw 37 [(Pw 41 [(Glob 6 [(Select (Ref 17) (Ref 11) FalseC); (Ref 11)]); (Ref 13)]); (Pw 41 [(Glob 6 [(Select (Ref 18) (Ref 11) FalseC); (Ref 11)]); (Ref 15)])]); (Ref 16)]) FalseC); (Ref 11)]) (Ref 11) (Select (Glob 8 [(Select (Pw 49 [(Pw 37 [(Pw 41 [(Glob 6 [(Select (Ref 3) (Ref 22) FalseC); (Ref 22)]); (Ref 24)]); (Pw 41 [(Glob 6 [(Select (Ref 25) (Ref 22) FalseC); (Ref 22)]); (Ref 26)])]); (Ref 27)]) (Pw 49 [(Pw 37 [(Pw 41 [(Glob 6 [(Select (Ref 17) (Ref 22) FalseC); (Ref 22)]); (Ref 24)]); (Pw 41 [(Glob 6 [(Select (Ref 28) (Ref 22) FalseC); (Ref 22)]); (Ref 26)])]); (Ref 27)]) FalseC); (Ref 22)]) (Ref 22) (Select (Glob 8 [(Select (Pw 49 [(Pw 37 [(Pw 41 [(Glob 6 [(Select (Ref 29) (Ref 30) FalseC); (Ref 30)]); (Ref 32)]); (Pw 41 [(Glob 6 [(Select (Ref 25) (Ref 30) FalseC); (Ref 30)]); (Ref 33)])]); (Ref 34)]) (Pw 49 [(Pw 37 [(Pw 41 [(Glob 6 [(Select (Ref 35) (Ref 30) FalseC); (Ref 30)]); (Ref 32)]); (Pw 41 [(Glob 6 [(Select (Ref 28) (Ref 30) FalseC); (Ref 30)]); (Ref 33)])]); (Ref 34)]) FalseC); (Ref 30)]) (Ref 30) (Select (Glob 8 [(Select (Pw 49 [(Pw 37 [(Pw 41 [(Glob 6 [(Select (Ref 29) (Ref 36) FalseC); (Ref 36)]); (Ref 38)]); (Pw 41 [(Glob 6 [(Select (Ref 18) (Ref 36) FalseC); (Ref 36)]); (Ref 39)])]); (Ref 40)]) (Pw 49 [(Pw 37 [(Pw 41 [(Glob 6 [(Select (Ref 35) (Ref 36) FalseC); (Ref 36)]); (Ref 38)]); (Pw 41 [(Glob 6 [(Select (Ref 14) (Ref 36) FalseC); (Ref 36)]); (Ref 39)])]); (Ref 40)]) FalseC); (Ref 36)]) (Ref 36) (Const 1))))) FalseC) (Pw 44 [(Ref 43)]) (Glob 19 [(Glob 57 [(Glob 58 [(Pw 37 [(Ref 43)])]); (Pw 17 [(Glob 59 [(Glob 60 [(Ref 41); (Ref 44); (Pw 37 [(Glob 61 [(Ref 43)])])])])])]); (Ref 44)]))).
+   (Select (Select (Pw 40 [(Ref 2)]) (Select (Glob 8 [(Select (Pw 43 [(Pw 31 [(Pw 35 [(Glob 6 [(Select (Ref 3) (Ref 11) FalseC); (Ref 11)]); (Ref 13)]); (Pw 35 [(Glob 6 [(Select (Ref 14) (Ref 11) FalseC); (Ref 11)]); (Ref 15)])]); (Ref 16)]) (Pw 43 [(Pw 31 [(Pw 35 [(Glob 6 [(Select (Ref 17) (Ref 11) FalseC); (Ref 11)]); (Ref 13)]); (Pw 35 [(Glob 6 [(Select (Ref 18) (Ref 11) FalseC); (Ref 11)]); (Ref 15)])]); (Ref 16)]) FalseC); (Ref 11)]) (Ref 11) (Select (Glob 8 [(Select (Pw 43 [(Pw 31 [(Pw 35 [(Glob 6 [(Select (Ref 3) (Ref 22) FalseC); (Ref 22)]); (Ref 24)]); (Pw 35 [(Glob 6 [(Select (Ref 25) (Ref 22) FalseC); (Ref 22)]); (Ref 26)])]); (Ref 27)]) (Pw 43 [(Pw 31 [(Pw 35 [(Glob 6 [(Select (Ref 17) (Ref 22) FalseC); (Ref 22)]); (Ref 24)]); (Pw 35 [(Glob 6 [(Select (Ref 28) (Ref 22) FalseC); (Ref 22)]); (Ref 26)])]); (Ref 27)]) FalseC); (Ref 22)]) (Ref 22) (Select (Glob 8 [(Select (Pw 43 [(Pw 31 [(Pw 35 [(Glob 6 [(Select (Ref 29) (Ref 30) FalseC); (Ref 30)]); (Ref 32)]); (Pw 35 [(Glob 6 [(Select (Ref 25) (Ref 30) FalseC); (Ref 30)]); (Ref 33)])]); (Ref 34)]) (Pw 43 [(Pw 31 [(Pw 35 [(Glob 6 [(Select (Ref 35) (Ref 30) FalseC); (Ref 30)]); (Ref 32)]); (Pw 35 [(Glob 6 [(Select (Ref 28) (Ref 30) FalseC); (Ref 30)]); (Ref 33)])]); (Ref 34)]) FalseC); (Ref 30)]) (Ref 30) (Select (Glob 8 [(Select (Pw 43 [(Pw 31 [(Pw 35 [(Glob 6 [(Select (Ref 29) (Ref 36) FalseC); (Ref 36)]); (Ref 38)]); (Pw 35 [(Glob 6 [(Select (Ref 18) (Ref 36) FalseC); (Ref 36)]); (Ref 39)])]); (Ref 40)]) (Pw 43 [(Pw 31 [(Pw 35 [(Glob 6 [(Select (Ref 35) (Ref 36) FalseC); (Ref 36)]); (Ref 38)]); (Pw 35 [(Glob 6 [(Select (Ref 14) (Ref 36) FalseC); (Ref 36)]); (Ref 39)])]); (Ref 40)]) FalseC); (Ref 36)]) (Ref 36) (Const 1))))) FalseC) (Pw 38 [(Ref 43)]) (Glob 19 [(Glob 51 [(Glob 52 [(Pw 31 [(Ref 43)])]); (Pw 17 [(Glob 53 [(Glob 54 [(Ref 41); (Ref 44); (Pw 31 [(Glob 55 [(Ref 43)])])])])])]); (Ref 44)]))).
 Example canny_ok : accepts prog_canny = true.
 Proof. vm_compute. reflexivity. Qed.
 
 (* laplacian_of_gaussian (11 DAG nodes, 15 as a tree):  Select (Pw add [Glob convolve [Select (Pw copy [Img]) (MaskE) (FalseC)]; Pw mult [Glob convolve [Pw not [MaskE]]; Img]]) (MaskE) (Img) *)
 Definition prog_laplacian_of_gaussian : prog :=
   ([],
-   (Select (Pw 37 [(Glob 62 [(Select (Pw 2 [Img]) MaskE FalseC)]); (Pw 41 [(Glob 62 [(Pw 1 [MaskE])]); Img])]) MaskE Img)).
+   (Select (Pw 31 [(Glob 56 [(Select (Pw 2 [Img]) MaskE FalseC)]); (Pw 35 [(Glob 56 [(Pw 1 [MaskE])]); Img])]) MaskE Img)).
 Example laplacian_of_gaussian_ok : accepts prog_laplacian_of_gaussian = true.
 Proof. vm_compute. reflexivity. Qed.
 
 (* variance_transform (13 DAG nodes, 21 as a tree):  Pw sub [Pw div [Glob gaussian_filter [Pw pow [Select (Pw copy [Img]) (MaskE) (FalseC)]]; Glob gaussian_filter [MaskE]]; Pw pow [Pw div [Glob gaussian_filter [Select (Pw copy [Img]) (MaskE) (FalseC)]; Glob gaussian_filter [MaskE]]]] *)
 Definition prog_variance_transform : prog :=
   ([(Select (Pw 2 [Img]) MaskE FalseC);
-    (Glob 63 [MaskE])],
-   (Pw 27 [(Pw 47 [(Glob 63 [(Pw 38 [(Ref 0)])]); (Ref 1)]); (Pw 38 [(Pw 47 [(Glob 63 [(Ref 0)]); (Ref 1)])])])).
+    (Glob 57 [MaskE])],
+   (Pw 27 [(Pw 41 [(Glob 57 [(Pw 32 [(Ref 0)])]); (Ref 1)]); (Pw 32 [(Pw 41 [(Glob 57 [(Ref 0)]); (Ref 1)])])])).
 Example variance_transform_ok : accepts prog_variance_transform = true.
 Proof. vm_compute. reflexivity. Qed.
 
 (* circular_average_filter (5 DAG nodes, 7 as a tree):  Select (MConv kernel (Pw ascontiguousarray [Img]) (MaskE)) (MaskE) (Img) *)
 Definition prog_circular_average_filter : prog :=
   ([],
-   (Select (MConv 64 (Pw 10 [Img]) MaskE) MaskE Img)).
+   (Select (MConv 58 (Pw 10 [Img]) MaskE) MaskE Img)).
 Example circular_average_filter_ok : accepts prog_circular_average_filter = true.
 Proof. vm_compute. reflexivity. Qed.
 
 (* smooth_with_function_and_mask (8 DAG nodes, 9 as a tree):  Pw div [Glob function [Select (Img) (MaskE) (Const<zeros(..)>)]; Pw add [Glob function [MaskE]]] *)
 Definition prog_smooth_with_function_and_mask : prog :=
   ([],
-   (Pw 47 [(Glob 48 [(Select Img MaskE (Const 1))]); (Pw 37 [(Glob 48 [MaskE])])])).
+   (Pw 41 [(Glob 42 [(Select Img MaskE (Const 1))]); (Pw 31 [(Glob 42 [MaskE])])])).
 Example smooth_with_function_and_mask_ok : accepts prog_smooth_with_function_and_mask = true.
 Proof. vm_compute. reflexivity. Qed.
 
 (* stretch (22 DAG nodes, 82 as a tree):  Select (Pw array [Img]) (Const<cmp>) (Select (Pw array [Img]) (Pw eq [Glob count_nonzero [MaskE]]) (Select (Select (Glob scatter [Glob min [Glob gather [Select (Pw array [Img]) (MaskE) (FalseC); MaskE]]; MaskE]) (MaskE) (Pw array [Img])) (Pw eq [Glob min [Glob gather [Select (Pw array [Img]) (MaskE) (FalseC); MaskE]]; Glob max [Glob gather [Select (Pw array [Img]) (MaskE) (FalseC); MaskE]]]) (Select (Glob scatter [Pw div [Pw sub [Glob gather [Select (Pw array [Img]) (MaskE) (FalseC); MaskE]; Glob min [Glob gather [Select (Pw array [Img]) (MaskE) (FalseC); MaskE]]]; Pw sub [Glob max [Glob gathe ... *)
 Definition prog_stretch : prog :=
-  ([(Pw 65 [Img]);
+  ([(Pw 59 [Img]);
     (Glob 6 [(Select (Ref 0) MaskE FalseC); MaskE]);
     (Glob 16 [(Ref 1)]);
     (Glob 18 [(Ref 1)])],
-   (Select (Ref 0) (Const 4) (Select (Ref 0) (Pw 44 [(Glob 66 [MaskE])]) (Select (Select (Glob 8 [(Ref 2); MaskE]) MaskE (Ref 0)) (Pw 44 [(Ref 2); (Ref 3)]) (Select (Glob 8 [(Pw 47 [(Pw 27 [(Ref 1); (Ref 2)]); (Pw 27 [(Ref 3); (Ref 2)])]); MaskE]) MaskE (Ref 0)))))).
+   (Select (Ref 0) (Const 4) (Select (Ref 0) (Pw 38 [(Glob 60 [MaskE])]) (Select (Select (Glob 8 [(Ref 2); MaskE]) MaskE (Ref 0)) (Pw 38 [(Ref 2); (Ref 3)]) (Select (Glob 8 [(Pw 41 [(Pw 27 [(Ref 1); (Ref 2)]); (Pw 27 [(Ref 3); (Ref 2)])]); MaskE]) MaskE (Ref 0)))))).
 Example stretch_ok : accepts prog_stretch = true.
 Proof. vm_compute. reflexivity. Qed.
 
@@ -338,17 +328,19 @@ Definition prog_fit_polynomial : prog :=
   ([(Select (Pw 17 [Img]) MaskE FalseC);
     (Glob 6 [(Select (Const 6) (Ref 0) FalseC); (Ref 0)]);
     (Glob 6 [(Select (Const 7) (Ref 0) FalseC); (Ref 0)]);
-    (Glob 60 [(Glob 67 [(Glob 19 [(Glob 68 [(Glob 69 [(Pw 65 [(Ref 1); (Ref 1); (Ref 2); (Ref 2); (Ref 2); (Glob 6 [(Select (Const 2) (Ref 0) FalseC); (Ref 0)])])]); (Glob 6 [(Select Img (Ref 0) FalseC); (Ref 0)])])])])]);
+    (Glob 54 [(Glob 61 [(Glob 19 [(Glob 62 [(Glob 63 [(Pw 59 [(Ref 1); (Ref 1); (Ref 2); (Ref 2); (Ref 2); (Glob 6 [(Select (Const 2) (Ref 0) FalseC); (Ref 0)])])]); (Glob 6 [(Select Img (Ref 0) FalseC); (Ref 0)])])])])]);
     (Select (Const 3) (Pw 17 [(Ref 3)]) (Ref 3))],
    (Select (Select (Select FalseC (Pw 15 [(Ref 4)]) (Select (Const 3) (Pw 17 [(Ref 3)]) (Ref 3))) (Const 5) (Ref 3)) (Glob 11 [(Ref 0)]) Img)).
 Example fit_polynomial_ok : accepts prog_fit_polynomial = true.
 Proof. vm_compute. reflexivity. Qed.
 
-(* circular_hough (10 DAG nodes, 21 as a tree):  Select (Pw div [Glob sum_of_shifts [Select (Img) (MaskE) (FalseC); MaskE]; Glob sum_of_shifts [Pw astype [MaskE]]]) (Pw gt0 [Glob sum_of_shifts [Pw astype [MaskE]]]) (Glob sum_of_shifts [Select (Img) (MaskE) (FalseC); MaskE]) *)
+(* circular_hough (11 DAG nodes, 35 as a tree):  Select (Pw div [Glob loop:a [Glob cropymin+y:ymax+y,xmin+x:xmax+x [Select (Img) (MaskE) (FalseC)]; Glob cropymin+y:ymax+y,xmin+x:xmax+x [MaskE]]; Glob loop:m [Glob cropymin+y:ymax+y,xmin+x:xmax+x [Select (Img) (MaskE) (FalseC)]; Glob cropymin+y:ymax+y,xmin+x:xmax+x [MaskE]]]) (Pw gt [Glob loop:m [Glob cropymin+y:ymax+y,xmin+x:xmax+x [Select (Img) (MaskE) (FalseC)]; Glob cropymin+y:ymax+y,xmin+x:xmax+x [MaskE]]]) (Glob loop:a [Glob cropymin+y:ymax+y,xmin+x:xmax+x [Select (Img) (MaskE) (FalseC)]; Glob cropymin+y:ymax+y,xmin+x:xmax+x [MaskE]]) *)
 Definition prog_circular_hough : prog :=
-  ([(Glob 71 [(Pw 72 [MaskE])]);
-    (Glob 71 [(Select Img MaskE FalseC); MaskE])],
-   (Select (Pw 47 [(Ref 1); (Ref 0)]) (Pw 70 [(Ref 0)]) (Ref 1))).
+  ([(Glob 65 [(Select Img MaskE FalseC)]);
+    (Glob 65 [MaskE]);
+    (Glob 64 [(Ref 0); (Ref 1)]);
+    (Glob 66 [(Ref 0); (Ref 1)])],
+   (Select (Pw 41 [(Ref 3); (Ref 2)]) (Pw 17 [(Ref 2)]) (Ref 3))).
 Example circular_hough_ok : accepts prog_circular_hough = true.
 Proof. vm_compute. reflexivity. Qed.
 
@@ -358,92 +350,92 @@ Definition prog_convex_hull_transform : prog :=
     (Glob 16 [(Ref 0)]);
     (Glob 18 [(Ref 0)]);
     (Pw 27 [(Ref 2); (Ref 1)]);
-    (Pw 37 [(Ref 1); (Pw 47 [(Pw 41 [(Ref 3)])])]);
-    (Select (Pw 47 [(Pw 41 [(Pw 27 [Img; (Ref 1)])]); (Ref 3)]) MaskE FalseC);
-    (Pw 72 [(Pw 75 [(Ref 5); (Glob 76 [(Pw 77 [(Ref 5)])])])]);
-    (Glob 74 [(Ref 6)]);
-    (Glob 61 [(Glob 73 [(Ref 7)])]);
-    (Glob 19 [(Glob 80 [(Ref 7); (Ref 8)]); (Ref 6)]);
-    (Glob 81 [(Ref 9)]);
-    (Glob 80 [(Glob 80 [(Glob 80 [(Glob 80 [(Pw 72 [(Glob 23 [(Glob 24 [(Glob 25 [(Glob 85 [(Pw 37 [(Pw 65 [(Ref 10)])])]); (Ref 9)])])])])])])])]);
+    (Pw 31 [(Ref 1); (Pw 41 [(Pw 35 [(Ref 3)])])]);
+    (Select (Pw 41 [(Pw 35 [(Pw 27 [Img; (Ref 1)])]); (Ref 3)]) MaskE FalseC);
+    (Pw 69 [(Pw 70 [(Ref 5); (Glob 71 [(Pw 72 [(Ref 5)])])])]);
+    (Glob 68 [(Ref 6)]);
+    (Glob 55 [(Glob 67 [(Ref 7)])]);
+    (Glob 19 [(Glob 75 [(Ref 7); (Ref 8)]); (Ref 6)]);
+    (Glob 76 [(Ref 9)]);
+    (Glob 75 [(Glob 75 [(Glob 75 [(Glob 75 [(Pw 69 [(Glob 23 [(Glob 24 [(Glob 25 [(Glob 80 [(Pw 31 [(Pw 59 [(Ref 10)])])]); (Ref 9)])])])])])])])]);
     (Pw 17 [(Ref 9); (Ref 11)]);
     (Glob 6 [(Select (Ref 9) (Ref 12) FalseC); (Ref 12)]);
     (Glob 6 [(Select (Ref 11) (Ref 12) FalseC); (Ref 12)]);
     (Pw 27 [(Ref 13); (Ref 14)]);
-    (Pw 27 [(Glob 79 [(Ref 15)]); (Ref 15)]);
-    (Glob 60 [(Ref 15)]);
-    (Glob 86 [(Glob 19 [(Ref 10)])]);
+    (Pw 27 [(Glob 74 [(Ref 15)]); (Ref 15)]);
+    (Glob 54 [(Ref 15)]);
+    (Glob 81 [(Glob 19 [(Ref 10)])]);
     (Glob 19 [(Ref 18); (Ref 18)]);
     (Glob 6 [(Select (Glob 22 [(Ref 19)]) (Ref 12) FalseC); (Ref 12)]);
     (Glob 6 [(Select (Glob 20 [(Ref 19)]) (Ref 12) FalseC); (Ref 12)]);
-    (Glob 82 [(Glob 83 [(Glob 84 [(Ref 15); (Ref 16); (Ref 17); (Ref 14); (Ref 13); (Ref 20); (Ref 21); (Ref 7)]); (Glob 87 [(Ref 15); (Ref 16); (Ref 17); (Ref 14); (Ref 13); (Ref 20); (Ref 21); (Ref 7)]); (Glob 88 [(Ref 15); (Ref 16); (Ref 17); (Ref 14); (Ref 13); (Ref 20); (Ref 21); (Ref 7)])]); (Ref 8)]);
+    (Glob 77 [(Glob 78 [(Glob 79 [(Ref 15); (Ref 16); (Ref 17); (Ref 14); (Ref 13); (Ref 20); (Ref 21); (Ref 7)]); (Glob 82 [(Ref 15); (Ref 16); (Ref 17); (Ref 14); (Ref 13); (Ref 20); (Ref 21); (Ref 7)]); (Glob 83 [(Ref 15); (Ref 16); (Ref 17); (Ref 14); (Ref 13); (Ref 20); (Ref 21); (Ref 7)])]); (Ref 8)]);
     (Glob 19 [(Glob 22 [(Ref 22)])]);
     (Glob 20 [(Ref 22)]);
-    (Pw 27 [(Glob 79 [(Ref 24)]); (Ref 24)]);
-    (Glob 19 [(Ref 23); (Glob 80 [(Pw 37 [(Glob 61 [(Glob 73 [(Ref 23)])])]); (Pw 27 [(Pw 37 [(Ref 25); (Ref 24)])]); (Ref 25)])]);
-    (Glob 90 [(Ref 23); (Ref 23); (Ref 26); (Ref 26)]);
-    (Glob 89 [(Ref 27)]);
-    (Glob 19 [(Ref 23); (Glob 79 [(Glob 80 [(Glob 58 [(Glob 73 [(Ref 28)])]); (Glob 91 [(Glob 22 [(Ref 27)])])])])]);
-    (Glob 93 [(Ref 27)]);
-    (Glob 92 [(Ref 29); (Ref 28); (Ref 30)]);
+    (Pw 27 [(Glob 74 [(Ref 24)]); (Ref 24)]);
+    (Glob 19 [(Ref 23); (Glob 75 [(Pw 31 [(Glob 55 [(Glob 67 [(Ref 23)])])]); (Pw 27 [(Pw 31 [(Ref 25); (Ref 24)])]); (Ref 25)])]);
+    (Glob 85 [(Ref 23); (Ref 23); (Ref 26); (Ref 26)]);
+    (Glob 84 [(Ref 27)]);
+    (Glob 19 [(Ref 23); (Glob 74 [(Glob 75 [(Glob 52 [(Glob 67 [(Ref 28)])]); (Glob 86 [(Glob 22 [(Ref 27)])])])])]);
+    (Glob 88 [(Ref 27)]);
+    (Glob 87 [(Ref 29); (Ref 28); (Ref 30)]);
     (Glob 19 [(Ref 28); (Ref 31)]);
     (Glob 19 [(Ref 30); (Ref 31)]);
-    (Glob 94 [(Pw 95 [(Pw 96 [(Glob 91 [(Ref 32)]); (Glob 97 [(Ref 32)])]); (Pw 96 [(Glob 91 [(Ref 33)]); (Glob 97 [(Ref 33)])])])]);
+    (Glob 89 [(Pw 90 [(Pw 91 [(Glob 86 [(Ref 32)]); (Glob 92 [(Ref 32)])]); (Pw 91 [(Glob 86 [(Ref 33)]); (Glob 92 [(Ref 33)])])])]);
     (Glob 19 [(Glob 19 [(Ref 29); (Ref 31)]); (Ref 34)]);
-    (Glob 58 [(Glob 81 [(Ref 35)])]);
+    (Glob 52 [(Glob 76 [(Ref 35)])]);
     (Glob 19 [(Ref 32); (Ref 34)]);
     (Glob 19 [(Ref 33); (Ref 34)]);
-    (Glob 94 [(Pw 96 [(Glob 91 [(Ref 38)]); (Glob 97 [(Ref 38)])])]);
+    (Glob 89 [(Pw 91 [(Glob 86 [(Ref 38)]); (Glob 92 [(Ref 38)])])]);
     (Glob 19 [(Ref 38); (Ref 39)]);
     (Glob 19 [(Ref 35); (Ref 39)]);
     (Pw 1 [(Ref 39)]);
     (Glob 19 [(Ref 38); (Ref 42)]);
-    (Glob 91 [(Ref 39)]);
+    (Glob 86 [(Ref 39)]);
     (Pw 1 [(Ref 44)]);
-    (Glob 19 [(Pw 27 [(Glob 91 [(Ref 35)]); (Glob 97 [(Ref 35)])]); (Ref 45)]);
-    (Pw 98 [(Glob 94 [(Ref 44)]); (Pw 15 [(Ref 37)])]);
-    (Glob 74 [(Ref 5)]);
-    (Glob 61 [(Glob 73 [(Ref 48)])]);
-    (Glob 6 [(Select (Glob 80 [(Ref 48); (Ref 49)]) (Ref 5) FalseC); (Ref 5)]);
-    (Glob 66 [(Ref 5)]);
-    (Glob 80 [(Glob 80 [(Glob 80 [(Glob 80 [(Pw 72 [(Glob 23 [(Glob 24 [(Glob 25 [(Glob 85 [(Pw 37 [(Pw 65 [(Ref 51)])])]); (Ref 50)])])])])])])])]);
+    (Glob 19 [(Pw 27 [(Glob 86 [(Ref 35)]); (Glob 92 [(Ref 35)])]); (Ref 45)]);
+    (Pw 93 [(Glob 89 [(Ref 44)]); (Pw 15 [(Ref 37)])]);
+    (Glob 68 [(Ref 5)]);
+    (Glob 55 [(Glob 67 [(Ref 48)])]);
+    (Glob 6 [(Select (Glob 75 [(Ref 48); (Ref 49)]) (Ref 5) FalseC); (Ref 5)]);
+    (Glob 60 [(Ref 5)]);
+    (Glob 75 [(Glob 75 [(Glob 75 [(Glob 75 [(Pw 69 [(Glob 23 [(Glob 24 [(Glob 25 [(Glob 80 [(Pw 31 [(Pw 59 [(Ref 51)])])]); (Ref 50)])])])])])])])]);
     (Pw 17 [(Ref 50); (Ref 52)]);
     (Glob 6 [(Select (Ref 50) (Ref 53) FalseC); (Ref 53)]);
     (Glob 6 [(Select (Ref 52) (Ref 53) FalseC); (Ref 53)]);
     (Pw 27 [(Ref 54); (Ref 55)]);
-    (Pw 27 [(Glob 79 [(Ref 56)]); (Ref 56)]);
-    (Glob 60 [(Ref 56)]);
-    (Glob 86 [(Glob 19 [(Ref 51)])]);
+    (Pw 27 [(Glob 74 [(Ref 56)]); (Ref 56)]);
+    (Glob 54 [(Ref 56)]);
+    (Glob 81 [(Glob 19 [(Ref 51)])]);
     (Glob 19 [(Ref 59); (Ref 59)]);
     (Glob 6 [(Select (Glob 22 [(Ref 60)]) (Ref 53) FalseC); (Ref 53)]);
     (Glob 6 [(Select (Glob 20 [(Ref 60)]) (Ref 53) FalseC); (Ref 53)]);
-    (Glob 82 [(Glob 83 [(Glob 84 [(Ref 56); (Ref 57); (Ref 58); (Ref 55); (Ref 54); (Ref 61); (Ref 62); (Ref 48)]); (Glob 87 [(Ref 56); (Ref 57); (Ref 58); (Ref 55); (Ref 54); (Ref 61); (Ref 62); (Ref 48)]); (Glob 88 [(Ref 56); (Ref 57); (Ref 58); (Ref 55); (Ref 54); (Ref 61); (Ref 62); (Ref 48)])]); (Ref 49)]);
+    (Glob 77 [(Glob 78 [(Glob 79 [(Ref 56); (Ref 57); (Ref 58); (Ref 55); (Ref 54); (Ref 61); (Ref 62); (Ref 48)]); (Glob 82 [(Ref 56); (Ref 57); (Ref 58); (Ref 55); (Ref 54); (Ref 61); (Ref 62); (Ref 48)]); (Glob 83 [(Ref 56); (Ref 57); (Ref 58); (Ref 55); (Ref 54); (Ref 61); (Ref 62); (Ref 48)])]); (Ref 49)]);
     (Glob 19 [(Glob 22 [(Ref 63)])]);
     (Glob 20 [(Ref 63)]);
-    (Pw 27 [(Glob 79 [(Ref 65)]); (Ref 65)]);
-    (Glob 19 [(Ref 64); (Glob 80 [(Pw 37 [(Glob 61 [(Glob 73 [(Ref 64)])])]); (Pw 27 [(Pw 37 [(Ref 66); (Ref 65)])]); (Ref 66)])]);
-    (Glob 90 [(Ref 64); (Ref 64); (Ref 67); (Ref 67)]);
-    (Glob 89 [(Ref 68)]);
-    (Glob 19 [(Ref 64); (Glob 79 [(Glob 80 [(Glob 58 [(Glob 73 [(Ref 69)])]); (Glob 91 [(Glob 22 [(Ref 68)])])])])]);
-    (Glob 93 [(Ref 68)]);
-    (Glob 92 [(Ref 70); (Ref 69); (Ref 71)]);
+    (Pw 27 [(Glob 74 [(Ref 65)]); (Ref 65)]);
+    (Glob 19 [(Ref 64); (Glob 75 [(Pw 31 [(Glob 55 [(Glob 67 [(Ref 64)])])]); (Pw 27 [(Pw 31 [(Ref 66); (Ref 65)])]); (Ref 66)])]);
+    (Glob 85 [(Ref 64); (Ref 64); (Ref 67); (Ref 67)]);
+    (Glob 84 [(Ref 68)]);
+    (Glob 19 [(Ref 64); (Glob 74 [(Glob 75 [(Glob 52 [(Glob 67 [(Ref 69)])]); (Glob 86 [(Glob 22 [(Ref 68)])])])])]);
+    (Glob 88 [(Ref 68)]);
+    (Glob 87 [(Ref 70); (Ref 69); (Ref 71)]);
     (Glob 19 [(Ref 69); (Ref 72)]);
     (Glob 19 [(Ref 71); (Ref 72)]);
-    (Glob 94 [(Pw 95 [(Pw 96 [(Glob 91 [(Ref 73)]); (Glob 97 [(Ref 73)])]); (Pw 96 [(Glob 91 [(Ref 74)]); (Glob 97 [(Ref 74)])])])]);
+    (Glob 89 [(Pw 90 [(Pw 91 [(Glob 86 [(Ref 73)]); (Glob 92 [(Ref 73)])]); (Pw 91 [(Glob 86 [(Ref 74)]); (Glob 92 [(Ref 74)])])])]);
     (Glob 19 [(Glob 19 [(Ref 70); (Ref 72)]); (Ref 75)]);
-    (Glob 58 [(Glob 81 [(Ref 76)])]);
+    (Glob 52 [(Glob 76 [(Ref 76)])]);
     (Glob 19 [(Ref 73); (Ref 75)]);
     (Glob 19 [(Ref 74); (Ref 75)]);
-    (Glob 94 [(Pw 96 [(Glob 91 [(Ref 79)]); (Glob 97 [(Ref 79)])])]);
+    (Glob 89 [(Pw 91 [(Glob 86 [(Ref 79)]); (Glob 92 [(Ref 79)])])]);
     (Glob 19 [(Ref 79); (Ref 80)]);
     (Glob 19 [(Ref 76); (Ref 80)]);
     (Pw 1 [(Ref 80)]);
     (Glob 19 [(Ref 79); (Ref 83)]);
-    (Glob 91 [(Ref 80)]);
+    (Glob 86 [(Ref 80)]);
     (Pw 1 [(Ref 85)]);
-    (Glob 19 [(Pw 27 [(Glob 91 [(Ref 76)]); (Glob 97 [(Ref 76)])]); (Ref 86)]);
-    (Pw 98 [(Glob 94 [(Ref 85)]); (Pw 15 [(Ref 78)])])],
-   (Select (Const 1) (Pw 44 [(Glob 73 [(Ref 0)])]) (Select Img (Pw 44 [(Ref 1); (Ref 2)]) (Select (Glob 19 [(Glob 19 [(Ref 4); (Ref 7)]); (Pw 78 [(Glob 79 [(Glob 80 [(Glob 80 [(Ref 36); (Glob 19 [(Ref 37); (Ref 39)]); (Ref 40); (Ref 41)]); (Glob 19 [(Ref 37); (Ref 42)]); (Ref 43); (Ref 46)])]); (Glob 79 [(Glob 80 [(Glob 80 [(Glob 80 [(Ref 36); (Ref 40); (Ref 41)]); (Pw 37 [(Glob 19 [(Glob 97 [(Ref 37)]); (Ref 45)])]); (Ref 43); (Ref 46)]); (Pw 37 [(Glob 19 [(Ref 37); (Ref 47)])]); (Glob 19 [(Ref 38); (Ref 47)]); (Pw 99 [(Glob 19 [(Ref 35); (Ref 47)])])])])])]) (Const 4) (Glob 19 [(Glob 19 [(Ref 4); (Ref 48)]); (Pw 78 [(Glob 79 [(Glob 80 [(Glob 80 [(Ref 77); (Glob 19 [(Ref 78); (Ref 80)]); (Ref 81); (Ref 82)]); (Glob 19 [(Ref 78); (Ref 83)]); (Ref 84); (Ref 87)])]); (Glob 79 [(Glob 80 [(Glob 80 [(Glob 80 [(Ref 77); (Ref 81); (Ref 82)]); (Pw 37 [(Glob 19 [(Glob 97 [(Ref 78)]); (Ref 86)])]); (Ref 84); (Ref 87)]); (Pw 37 [(Glob 19 [(Ref 78); (Ref 88)])]); (Glob 19 [(Ref 79); (Ref 88)]); (Pw 99 [(Glob 19 [(Ref 76); (Ref 88)])])])])])]))))).
+    (Glob 19 [(Pw 27 [(Glob 86 [(Ref 76)]); (Glob 92 [(Ref 76)])]); (Ref 86)]);
+    (Pw 93 [(Glob 89 [(Ref 85)]); (Pw 15 [(Ref 78)])])],
+   (Select (Const 1) (Pw 38 [(Glob 67 [(Ref 0)])]) (Select Img (Pw 38 [(Ref 1); (Ref 2)]) (Select (Glob 19 [(Glob 19 [(Ref 4); (Ref 7)]); (Pw 73 [(Glob 74 [(Glob 75 [(Glob 75 [(Ref 36); (Glob 19 [(Ref 37); (Ref 39)]); (Ref 40); (Ref 41)]); (Glob 19 [(Ref 37); (Ref 42)]); (Ref 43); (Ref 46)])]); (Glob 74 [(Glob 75 [(Glob 75 [(Glob 75 [(Ref 36); (Ref 40); (Ref 41)]); (Pw 31 [(Glob 19 [(Glob 92 [(Ref 37)]); (Ref 45)])]); (Ref 43); (Ref 46)]); (Pw 31 [(Glob 19 [(Ref 37); (Ref 47)])]); (Glob 19 [(Ref 38); (Ref 47)]); (Pw 94 [(Glob 19 [(Ref 35); (Ref 47)])])])])])]) (Const 4) (Glob 19 [(Glob 19 [(Ref 4); (Ref 48)]); (Pw 73 [(Glob 74 [(Glob 75 [(Glob 75 [(Ref 77); (Glob 19 [(Ref 78); (Ref 80)]); (Ref 81); (Ref 82)]); (Glob 19 [(Ref 78); (Ref 83)]); (Ref 84); (Ref 87)])]); (Glob 74 [(Glob 75 [(Glob 75 [(Glob 75 [(Ref 77); (Ref 81); (Ref 82)]); (Pw 31 [(Glob 19 [(Glob 92 [(Ref 78)]); (Ref 86)])]); (Ref 84); (Ref 87)]); (Pw 31 [(Glob 19 [(Ref 78); (Ref 88)])]); (Glob 19 [(Ref 79); (Ref 88)]); (Pw 94 [(Glob 19 [(Ref 76); (Ref 88)])])])])])]))))).
 Example convex_hull_transform_ok : accepts prog_convex_hull_transform = true.
 Proof. vm_compute. reflexivity. Qed.
 
@@ -457,7 +449,7 @@ Proof. vm_compute. reflexivity. Qed.
 (* bridge (8 DAG nodes, 10 as a tree):  Select (Glob table_lookup [Select (Pw copy [Pw astype [Img]]) (MaskE) (FalseC)]) (MaskE) (Img) *)
 Definition prog_bridge : prog :=
   ([],
-   (Select (Glob 100 [(Select (Pw 2 [(Pw 72 [Img])]) MaskE FalseC)]) MaskE Img)).
+   (Select (Glob 95 [(Select (Pw 2 [(Pw 69 [Img])]) MaskE FalseC)]) MaskE Img)).
 Example bridge_ok : accepts prog_bridge = true.
 Proof. vm_compute. reflexivity. Qed.
 Example bridge_restores : restores_outside prog_bridge = true.
@@ -466,7 +458,7 @@ Proof. vm_compute. reflexivity. Qed.
 (* clean (8 DAG nodes, 10 as a tree):  Select (Glob table_lookup [Select (Pw copy [Pw astype [Img]]) (MaskE) (FalseC)]) (MaskE) (Img) *)
 Definition prog_clean : prog :=
   ([],
-   (Select (Glob 100 [(Select (Pw 2 [(Pw 72 [Img])]) MaskE FalseC)]) MaskE Img)).
+   (Select (Glob 95 [(Select (Pw 2 [(Pw 69 [Img])]) MaskE FalseC)]) MaskE Img)).
 Example clean_ok : accepts prog_clean = true.
 Proof. vm_compute. reflexivity. Qed.
 Example clean_restores : restores_outside prog_clean = true.
@@ -475,7 +467,7 @@ Proof. vm_compute. reflexivity. Qed.
 (* diag (8 DAG nodes, 10 as a tree):  Select (Glob table_lookup [Select (Pw copy [Pw astype [Img]]) (MaskE) (FalseC)]) (MaskE) (Img) *)
 Definition prog_diag : prog :=
   ([],
-   (Select (Glob 100 [(Select (Pw 2 [(Pw 72 [Img])]) MaskE FalseC)]) MaskE Img)).
+   (Select (Glob 95 [(Select (Pw 2 [(Pw 69 [Img])]) MaskE FalseC)]) MaskE Img)).
 Example diag_ok : accepts prog_diag = true.
 Proof. vm_compute. reflexivity. Qed.
 Example diag_restores : restores_outside prog_diag = true.
@@ -484,7 +476,7 @@ Proof. vm_compute. reflexivity. Qed.
 (* endpoints (8 DAG nodes, 10 as a tree):  Select (Glob table_lookup [Select (Pw copy [Pw astype [Img]]) (MaskE) (FalseC)]) (MaskE) (Img) *)
 Definition prog_endpoints : prog :=
   ([],
-   (Select (Glob 100 [(Select (Pw 2 [(Pw 72 [Img])]) MaskE FalseC)]) MaskE Img)).
+   (Select (Glob 95 [(Select (Pw 2 [(Pw 69 [Img])]) MaskE FalseC)]) MaskE Img)).
 Example endpoints_ok : accepts prog_endpoints = true.
 Proof. vm_compute. reflexivity. Qed.
 Example endpoints_restores : restores_outside prog_endpoints = true.
@@ -493,7 +485,7 @@ Proof. vm_compute. reflexivity. Qed.
 (* branchpoints (8 DAG nodes, 10 as a tree):  Select (Glob table_lookup [Select (Pw copy [Pw astype [Img]]) (MaskE) (FalseC)]) (MaskE) (Img) *)
 Definition prog_branchpoints : prog :=
   ([],
-   (Select (Glob 100 [(Select (Pw 2 [(Pw 72 [Img])]) MaskE FalseC)]) MaskE Img)).
+   (Select (Glob 95 [(Select (Pw 2 [(Pw 69 [Img])]) MaskE FalseC)]) MaskE Img)).
 Example branchpoints_ok : accepts prog_branchpoints = true.
 Proof. vm_compute. reflexivity. Qed.
 Example branchpoints_restores : restores_outside prog_branchpoints = true.
@@ -502,7 +494,7 @@ Proof. vm_compute. reflexivity. Qed.
 (* fill (8 DAG nodes, 10 as a tree):  Select (Glob table_lookup [Select (Pw copy [Pw astype [Img]]) (MaskE) (Const<True>)]) (MaskE) (Img) *)
 Definition prog_fill : prog :=
   ([],
-   (Select (Glob 100 [(Select (Pw 2 [(Pw 72 [Img])]) MaskE (Const 8))]) MaskE Img)).
+   (Select (Glob 95 [(Select (Pw 2 [(Pw 69 [Img])]) MaskE (Const 8))]) MaskE Img)).
 Example fill_ok : accepts prog_fill = true.
 Proof. vm_compute. reflexivity. Qed.
 Example fill_restores : restores_outside prog_fill = true.
@@ -511,7 +503,7 @@ Proof. vm_compute. reflexivity. Qed.
 (* fill4 (8 DAG nodes, 10 as a tree):  Select (Glob table_lookup [Select (Pw copy [Pw astype [Img]]) (MaskE) (Const<True>)]) (MaskE) (Img) *)
 Definition prog_fill4 : prog :=
   ([],
-   (Select (Glob 100 [(Select (Pw 2 [(Pw 72 [Img])]) MaskE (Const 8))]) MaskE Img)).
+   (Select (Glob 95 [(Select (Pw 2 [(Pw 69 [Img])]) MaskE (Const 8))]) MaskE Img)).
 Example fill4_ok : accepts prog_fill4 = true.
 Proof. vm_compute. reflexivity. Qed.
 Example fill4_restores : restores_outside prog_fill4 = true.
@@ -520,7 +512,7 @@ Proof. vm_compute. reflexivity. Qed.
 (* hbreak (8 DAG nodes, 10 as a tree):  Select (Glob table_lookup [Select (Pw copy [Pw astype [Img]]) (MaskE) (FalseC)]) (MaskE) (Img) *)
 Definition prog_hbreak : prog :=
   ([],
-   (Select (Glob 100 [(Select (Pw 2 [(Pw 72 [Img])]) MaskE FalseC)]) MaskE Img)).
+   (Select (Glob 95 [(Select (Pw 2 [(Pw 69 [Img])]) MaskE FalseC)]) MaskE Img)).
 Example hbreak_ok : accepts prog_hbreak = true.
 Proof. vm_compute. reflexivity. Qed.
 Example hbreak_restores : restores_outside prog_hbreak = true.
@@ -529,7 +521,7 @@ Proof. vm_compute. reflexivity. Qed.
 (* vbreak (8 DAG nodes, 10 as a tree):  Select (Glob table_lookup [Select (Pw copy [Pw astype [Img]]) (MaskE) (FalseC)]) (MaskE) (Img) *)
 Definition prog_vbreak : prog :=
   ([],
-   (Select (Glob 100 [(Select (Pw 2 [(Pw 72 [Img])]) MaskE FalseC)]) MaskE Img)).
+   (Select (Glob 95 [(Select (Pw 2 [(Pw 69 [Img])]) MaskE FalseC)]) MaskE Img)).
 Example vbreak_ok : accepts prog_vbreak = true.
 Proof. vm_compute. reflexivity. Qed.
 Example vbreak_restores : restores_outside prog_vbreak = true.
@@ -538,7 +530,7 @@ Proof. vm_compute. reflexivity. Qed.
 (* majority (8 DAG nodes, 10 as a tree):  Select (Glob table_lookup [Select (Pw copy [Pw astype [Img]]) (MaskE) (FalseC)]) (MaskE) (Img) *)
 Definition prog_majority : prog :=
   ([],
-   (Select (Glob 100 [(Select (Pw 2 [(Pw 72 [Img])]) MaskE FalseC)]) MaskE Img)).
+   (Select (Glob 95 [(Select (Pw 2 [(Pw 69 [Img])]) MaskE FalseC)]) MaskE Img)).
 Example majority_ok : accepts prog_majority = true.
 Proof. vm_compute. reflexivity. Qed.
 Example majority_restores : restores_outside prog_majority = true.
@@ -547,7 +539,7 @@ Proof. vm_compute. reflexivity. Qed.
 (* remove (8 DAG nodes, 10 as a tree):  Select (Glob table_lookup [Select (Pw copy [Pw astype [Img]]) (MaskE) (FalseC)]) (MaskE) (Img) *)
 Definition prog_remove : prog :=
   ([],
-   (Select (Glob 100 [(Select (Pw 2 [(Pw 72 [Img])]) MaskE FalseC)]) MaskE Img)).
+   (Select (Glob 95 [(Select (Pw 2 [(Pw 69 [Img])]) MaskE FalseC)]) MaskE Img)).
 Example remove_ok : accepts prog_remove = true.
 Proof. vm_compute. reflexivity. Qed.
 Example remove_restores : restores_outside prog_remove = true.
@@ -555,12 +547,12 @@ Proof. vm_compute. reflexivity. Qed.
 
 (* spur (24 DAG nodes, 134 as a tree):  Select (Select (Select (Img) (Glob index_set [Glob loop:index_i [Glob len [Glob unpack0 [Glob prepare_for_index_lookup [Select (Pw copy [Pw astype [Img]]) (MaskE) (FalseC)]]]; Glob unpack0 [Glob prepare_for_index_lookup [Select (Pw copy [Pw astype [Img]]) (MaskE) (FalseC)]]; Glob unpack1 [Glob prepare_for_index_lookup [Select (Pw copy [Pw astype [Img]]) (MaskE) (FalseC)]]; Glob unpack2 [Glob prepare_for_index_lookup [Select (Pw copy [Pw astype [Img]]) (MaskE) (FalseC)]]]; Glob loop:index_j [Glob len [Glob unpack0 [Glob prepare_for_index_lookup [Select (Pw copy [Pw astype [Img]]) (MaskE) (False ... *)
 Definition prog_spur : prog :=
-  ([(Glob 103 [(Select (Pw 2 [(Pw 72 [Img])]) MaskE FalseC)]);
+  ([(Glob 98 [(Select (Pw 2 [(Pw 69 [Img])]) MaskE FalseC)]);
     (Glob 22 [(Ref 0)]);
-    (Glob 73 [(Ref 1)]);
+    (Glob 67 [(Ref 1)]);
     (Glob 20 [(Ref 0)]);
-    (Glob 89 [(Ref 0)])],
-   (Select (Select (Select Img (Glob 101 [(Glob 102 [(Ref 2); (Ref 1); (Ref 3); (Ref 4)]); (Glob 104 [(Ref 2); (Ref 1); (Ref 3); (Ref 4)])]) (Const 10)) MaskE Img) (Const 9) (Select (Select Img (Glob 101 [(Glob 102 [(Ref 1); (Ref 3); (Ref 4)]); (Glob 104 [(Ref 1); (Ref 3); (Ref 4)])]) (Const 10)) MaskE Img))).
+    (Glob 84 [(Ref 0)])],
+   (Select (Select (Select Img (Glob 96 [(Glob 97 [(Ref 2); (Ref 1); (Ref 3); (Ref 4)]); (Glob 99 [(Ref 2); (Ref 1); (Ref 3); (Ref 4)])]) (Const 10)) MaskE Img) (Const 9) (Select (Select Img (Glob 96 [(Glob 97 [(Ref 1); (Ref 3); (Ref 4)]); (Glob 99 [(Ref 1); (Ref 3); (Ref 4)])]) (Const 10)) MaskE Img))).
 Example spur_ok : accepts prog_spur = true.
 Proof. vm_compute. reflexivity. Qed.
 Example spur_restores : restores_outside prog_spur = true.
@@ -569,7 +561,7 @@ Proof. vm_compute. reflexivity. Qed.
 (* thicken (8 DAG nodes, 10 as a tree):  Select (Glob table_lookup [Select (Pw copy [Pw astype [Img]]) (MaskE) (FalseC)]) (MaskE) (Img) *)
 Definition prog_thicken : prog :=
   ([],
-   (Select (Glob 100 [(Select (Pw 2 [(Pw 72 [Img])]) MaskE FalseC)]) MaskE Img)).
+   (Select (Glob 95 [(Select (Pw 2 [(Pw 69 [Img])]) MaskE FalseC)]) MaskE Img)).
 Example thicken_ok : accepts prog_thicken = true.
 Proof. vm_compute. reflexivity. Qed.
 Example thicken_restores : restores_outside prog_thicken = true.
@@ -577,12 +569,12 @@ Proof. vm_compute. reflexivity. Qed.
 
 (* thin (23 DAG nodes, 120 as a tree):  Select (Select (Select (Img) (Glob index_set [Glob loop:index_i [Glob len [Glob unpack0 [Glob prepare_for_index_lookup [Select (Pw copy [Img]) (MaskE) (FalseC)]]]; Glob unpack0 [Glob prepare_for_index_lookup [Select (Pw copy [Img]) (MaskE) (FalseC)]]; Glob unpack1 [Glob prepare_for_index_lookup [Select (Pw copy [Img]) (MaskE) (FalseC)]]; Glob unpack2 [Glob prepare_for_index_lookup [Select (Pw copy [Img]) (MaskE) (FalseC)]]]; Glob loop:index_j [Glob len [Glob unpack0 [Glob prepare_for_index_lookup [Select (Pw copy [Img]) (MaskE) (FalseC)]]]; Glob unpack0 [Glob prepare_for_index_lookup [Select ( ... *)
 Definition prog_thin : prog :=
-  ([(Glob 103 [(Select (Pw 2 [Img]) MaskE FalseC)]);
+  ([(Glob 98 [(Select (Pw 2 [Img]) MaskE FalseC)]);
     (Glob 22 [(Ref 0)]);
-    (Glob 73 [(Ref 1)]);
+    (Glob 67 [(Ref 1)]);
     (Glob 20 [(Ref 0)]);
-    (Glob 89 [(Ref 0)])],
-   (Select (Select (Select Img (Glob 101 [(Glob 102 [(Ref 2); (Ref 1); (Ref 3); (Ref 4)]); (Glob 104 [(Ref 2); (Ref 1); (Ref 3); (Ref 4)])]) (Const 10)) MaskE Img) (Const 9) (Select (Select Img (Glob 101 [(Glob 102 [(Ref 1); (Ref 3); (Ref 4)]); (Glob 104 [(Ref 1); (Ref 3); (Ref 4)])]) (Const 10)) MaskE Img))).
+    (Glob 84 [(Ref 0)])],
+   (Select (Select (Select Img (Glob 96 [(Glob 97 [(Ref 2); (Ref 1); (Ref 3); (Ref 4)]); (Glob 99 [(Ref 2); (Ref 1); (Ref 3); (Ref 4)])]) (Const 10)) MaskE Img) (Const 9) (Select (Select Img (Glob 96 [(Glob 97 [(Ref 1); (Ref 3); (Ref 4)]); (Glob 99 [(Ref 1); (Ref 3); (Ref 4)])]) (Const 10)) MaskE Img))).
 Example thin_ok : accepts prog_thin = true.
 Proof. vm_compute. reflexivity. Qed.
 Example thin_restores : restores_outside prog_thin = true.
@@ -590,14 +582,14 @@ Proof. vm_compute. reflexivity. Qed.
 
 (* skeletonize (30 DAG nodes, 167 as a tree):  Select (Select (Pw astype [Glob skeletonize_loop [Pw ascontiguousarray [Pw copy [Select (Pw copy [Pw astype [Img]]) (MaskE) (FalseC)]]; Pw ascontiguousarray [Glob index [Pw copy [Select (Pw copy [Pw astype [Img]]) (MaskE) (FalseC)]]]; Pw ascontiguousarray [Glob index [Pw copy [Select (Pw copy [Pw astype [Img]]) (MaskE) (FalseC)]]]; Pw ascontiguousarray [Glob lexsort [Glob gather [Select (Const<permutation(..)>) (Select (Pw copy [Pw astype [Img]]) (MaskE) (FalseC)) (FalseC); Select (Pw copy [Pw astype [Img]]) (MaskE) (FalseC)]; Glob gather [Select (Glob table_lookup [Select (Pw copy [Pw astype  ... *)
 Definition prog_skeletonize : prog :=
-  ([(Select (Pw 2 [(Pw 72 [Img])]) MaskE FalseC);
+  ([(Select (Pw 2 [(Pw 69 [Img])]) MaskE FalseC);
     (Pw 2 [(Ref 0)]);
     (Pw 10 [(Ref 1)]);
     (Glob 19 [(Ref 1)]);
     (Pw 10 [(Ref 3)]);
     (Glob 6 [(Select (Const 11) (Ref 0) FalseC); (Ref 0)]);
-    (Glob 6 [(Select (Glob 100 [(Ref 0)]) (Ref 0) FalseC); (Ref 0)])],
-   (Select (Select (Pw 72 [(Glob 105 [(Ref 2); (Ref 4); (Ref 4); (Pw 10 [(Glob 92 [(Ref 5); (Ref 6); (Glob 19 [(Glob 106 [(Ref 0)]); (Ref 1)])])])])]) MaskE Img) (Const 9) (Select (Pw 72 [(Glob 105 [(Ref 2); (Ref 4); (Ref 4); (Pw 10 [(Glob 92 [(Ref 5); (Ref 6); (Ref 3)])])])]) MaskE Img))).
+    (Glob 6 [(Select (Glob 95 [(Ref 0)]) (Ref 0) FalseC); (Ref 0)])],
+   (Select (Select (Pw 69 [(Glob 100 [(Ref 2); (Ref 4); (Ref 4); (Pw 10 [(Glob 87 [(Ref 5); (Ref 6); (Glob 19 [(Glob 101 [(Ref 0)]); (Ref 1)])])])])]) MaskE Img) (Const 9) (Select (Pw 69 [(Glob 100 [(Ref 2); (Ref 4); (Ref 4); (Pw 10 [(Glob 87 [(Ref 5); (Ref 6); (Ref 3)])])])]) MaskE Img))).
 Example skeletonize_ok : accepts prog_skeletonize = true.
 Proof. vm_compute. reflexivity. Qed.
 Example skeletonize_restores : restores_outside prog_skeletonize = true.
